@@ -208,6 +208,11 @@ def run_c08(ctx, chk):
         span=prog.bodies[ep('select_graphic_rendition')].span, what='; '.join(badl[:3]))
     chk.cov['sgr_lists_decided'] = n
     chk.floor('SGR parameter lists', n, 150)
+    # through the parser (`CSI .. m`): the listener receives exactly the parameters typed in *this*
+    # sequence, in order, empty ones as 0 - nothing left over from an earlier abandoned sequence
+    from . import rules_c03 as r3
+    tables = r3.dispatch_tables(ctx, chk, quiet=True)
+    r3.run_fsm(ctx, chk, tables, prop='C08', focus='sgr')
     chk.trust('rustc 1.97 lowering of the format string {:02x}{:02x}{:02x} (frozen template bytes)', 'HashMap / Vec summaries')
 
 
@@ -362,6 +367,16 @@ def run_c18(ctx, chk):
         cl = [i for i, ev in enumerate(evs) if ev[0] == 'coll.clear' and ev[1] == ('S', 'tabstops')]
         ex = [(i, ev) for i, ev in enumerate(evs) if ev[0] == 'set.extend' and ev[1] == ('S', 'tabstops')]
         ins = [ev for ev in evs if ev[0] == 'set.insert' and ev[1] == ('S', 'tabstops')]
+        repl = [ev for ev in evs if ev[0] == 'w' and ev[1] == ('tabstops',)]
+        if repl and not ex and not ins:
+            # the set is replaced as a whole: `tabstops = (8..columns).step_by(8).collect()`
+            r_ = g.collected_range(repl[-1][2])
+            cols = get(eng, st, 'columns')
+            okc = r_ is not None and r_[0].sym is None and r_[0].k == 8 and eng.prove_cmp(st, 'eq', r_[1], cols) is True and not r_[2] and \
+                len(r_[3]) == 1 and r_[3][0][0] == 'step_by' and isinstance(r_[3][0][1], NumV) and r_[3][0][1].sym is None and r_[3][0][1].k == 8
+            if not okc:
+                bad.append('the stop set is replaced by %r (documented: every 8th column 8, 16, .. < columns)' % (repl[-1][2],))
+            continue
         if not cl:
             bad.append('tab stops not cleared')
         if not ex and not ins and cl:
@@ -757,7 +772,7 @@ def run_c15(ctx, chk):
             gv = v.known if isinstance(v, StrV) else (eng.eval_bool(st, v) if isinstance(v, BoolV) else None)
             if gv != wv:
                 bad.append('[%s] rendition %s is %r (documented %r)' % (label, k, gv, wv))
-        if not all_rows_marked(eng, st, evs, ctx, sr) or 'dirty' not in cleared:
+        if not all_rows_marked(eng, st, evs, ctx, sr) or ('dirty' not in cleared and ('dirty',) not in wr):
             bad.append('[%s] dirty set is not exactly all rows' % label)
         # tab stops: decided under C18 (same events)
     chk.instance('R-KILL', short(f), 'every field except savepoints/lines/columns is re-initialised', cnt > 0 and not [b for b in bad if 're-init' in b or 'cleared' in b or 'left alone' in b],
@@ -870,7 +885,7 @@ def run_c16(ctx, chk):
             name = 'set_mode' if set_ else 'reset_mode'
             try:
                 e2, r2 = run_modes(ctx, [num], private, set_)
-                probs = [p_ for p_ in mode_effects(e2, r2, DECCOLM, set_) if 'width' in p_ or 'remembered' in p_]
+                probs = [p_ for p_ in mode_effects(e2, r2, DECCOLM, set_, ctx) if 'width' in p_ or 'remembered' in p_]
             except Budget as ex:
                 probs = [str(ex)]
                 r2 = []
@@ -922,7 +937,7 @@ def run_c12(ctx, chk):
             except Budget as e:
                 chk.instance('R-MODES', 'Screen::' + name, 'mode %d private=%s' % (num, private), False, detail=str(e), undischarged=True)
                 continue
-            probs = mode_effects(eng, res, eff, set_)
+            probs = mode_effects(eng, res, eff, set_, ctx)
             # the mode set itself, decided on exactly known initial sets (with and without the number)
             for initial in ([DECAWM, DECTCEM, 77], [DECAWM, DECTCEM, 77, eff]):
                 init = sorted(set(initial))
@@ -1014,7 +1029,7 @@ def run_modes_from(ctx, modes, private, set_, initial):
     return eng, res
 
 
-def mode_effects(eng, res, eff, set_):
+def mode_effects(eng, res, eff, set_, ctx=None):
     """compare the effects on every exit path with the documented table for effective number eff"""
     probs = []
     for (st, ret) in res:
@@ -1053,9 +1068,20 @@ def mode_effects(eng, res, eff, set_):
             if not home_ok:
                 probs.append('cursor column %s after DECCOLM, documented home' % g.term(eng, st, x))
             # the whole screen is erased: ED 2 is performed (what ED 2 does is C07's business)
-            full = any(ev[0] == 'call' and ev[1] == ep('erase_in_display') and len(ev[2]) >= 1 and ev[2][0] in (('Some', 2), ('Some', 3)) for ev in evs)
-            if not full:
+            eds = [i for i, ev in enumerate(evs) if ev[0] == 'call' and ev[1] == ep('erase_in_display') and len(ev[2]) >= 1 and ev[2][0] in (('Some', 2), ('Some', 3))]
+            if not eds:
                 probs.append('screen is not erased')
+            else:
+                # .. and it is the screen of the new geometry that is erased: no later change of the size
+                for fld, at0 in ((('columns',), c0), (('lines',), st.vn.get(('entry', 'lines')))):
+                    ws = [(i, ev[2]) for i, ev in enumerate(evs) if ev[0] == 'w' and ev[1] == fld]
+                    before = [v for i, v in ws if i < eds[-1]]
+                    after = [v for i, v in ws if i > eds[-1]]
+                    at_erase = before[-1] if before else at0
+                    if after and not (isinstance(after[-1], NumV) and isinstance(at_erase, NumV) and eng.prove_le(st, after[-1], at_erase) is True):
+                        probs.append('the screen is erased before the %s change (%s -> %s): what is gained afterwards is not erased with the current rendition' % (
+                            'width' if fld == ('columns',) else 'height', g.term(eng, st, at_erase) if isinstance(at_erase, NumV) else at_erase,
+                            g.term(eng, st, after[-1]) if isinstance(after[-1], NumV) else after[-1]))
         elif eff == DECOM:
             if not moved or eng.prove_cmp(st, 'eq', x, NumV(None, 0, 'u32')) is not True:
                 probs.append('cursor not homed (column %s)' % g.term(eng, st, x))
@@ -1066,7 +1092,7 @@ def mode_effects(eng, res, eff, set_):
             rv = a.fields.get('reverse') if isinstance(a, StructV) else None
             if not (isinstance(rv, BoolV) and eng.eval_bool(st, rv) is set_):
                 probs.append('current rendition reverse is %r, documented %s' % (rv, set_))
-            if not all_rows_marked(eng, st, evs):
+            if not all_rows_marked(eng, st, evs, ctx):
                 probs.append('rows not marked dirty')
             if moved or geom:
                 probs.append('cursor or geometry touched')
@@ -1105,6 +1131,8 @@ def run_c04(ctx, chk):
         ev = e['ev']
         if e['func'] not in funcs or e['ep'] != draw or ev[0] != 'map.insert' or g.level_of(e) != 'cell':
             continue
+        if g.is_materialising_insert(eng, e):
+            continue      # no cell changes its meaning (R-ABSENT looks at what is materialised)
         st = e['st']
         row = g.row_of_path(ev[1])
         col = ev[2]
@@ -1151,7 +1179,8 @@ def run_c04(ctx, chk):
         st = s['st']
         pre, evs = g.seg_events(dict(kind='backedge', st=st, func=draw, head=s['head']))
         irm = mode_fact(eng, st, IRM)
-        stores = [i for i, ev in enumerate(evs) if ev[0] == 'map.insert' and ev[-1] in funcs and len(ev[1]) == 3]
+        mat = g.materialising_indices(eng, st, evs)
+        stores = [i for i, ev in enumerate(evs) if ev[0] == 'map.insert' and ev[-1] in funcs and len(ev[1]) == 3 and i not in mat]
         # the shift is the call of insert_characters (however that method goes about it: C13 decides its effect)
         ich = [i for i, ev in enumerate(evs) if ev[0] == 'call' and ev[1] == ep('insert_characters')]
         if irm is True and stores:
